@@ -55,7 +55,10 @@ def scope_table(tree):
     return table
 
 
-def skeleton_script(tree, values, unused=frozenset(), ctrl_uses=None):
+LOOP_MODES = ("plain", "M3", "M1", "M0", "M3+cond", "cond")
+
+
+def skeleton_script(tree, values, unused=frozenset(), ctrl_uses=None, loop_mode="plain"):
     """values: [(scope, dep, uses)], dep = "x" | ("arg", loop_scope) | ("val", j); uses = set of scopes.
     A value is created at the start of its scope's block; the use-node of a scope (a Sum over the
     scope's base value, the values used there and the control nodes of the scope) is created at its
@@ -100,12 +103,19 @@ def skeleton_script(tree, values, unused=frozenset(), ctrl_uses=None):
                 tb, tr = scope(c[2], base)
                 block.append(["if", 1, eb, er, tb, tr])
             else:
+                mc = {}
+                if loop_mode.startswith("M"):
+                    # a constant trip count, created right before the Loop (value-propagated)
+                    block.append(["val", "consti", [], int(loop_mode[1])])
+                    mc["m"] = fresh()
+                if loop_mode.endswith("cond"):
+                    mc["c"] = 1
                 body_scope = scope_no[0]
                 a0 = counter[0]
                 counter[0] += 3
                 carried[body_scope] = a0 + 2
                 bb, br = scope(c[1], a0 + 2)
-                block.append(["loop", [base], 3, bb, [a0 + 1] + br])
+                block.append(["loop", [base], 3, bb, [a0 + 1] + br, mc])
             cid = fresh()
             me = ctrl_no[0]
             ctrl_no[0] += 1
@@ -153,12 +163,18 @@ def skeletons(max_bodies: int, k: int, rng: random.Random | None = None, sample:
         else:
             assert rng is not None
             combos = (tuple(rng.choice(c) for c in per) for _ in range(sample))
-        for vals in combos:
-            try:
-                sc = skeleton_script(tree, list(vals))
-            except Invalid:
-                continue
-            yield {"tree": tree, "values": [[s, d, sorted(u)] for s, d, u in vals]}, sc
+        for idx, vals in enumerate(combos):
+            modes = ["plain"]
+            if loops:
+                # constant / absent trip count, with / without cond: one mode per skeleton in turn,
+                # plus the constant-trip-count-without-cond mode for every skeleton
+                modes = sorted({LOOP_MODES[idx % len(LOOP_MODES)], "M3"})
+            for mode in modes:
+                try:
+                    sc = skeleton_script(tree, list(vals), loop_mode=mode)
+                except Invalid:
+                    continue
+                yield {"tree": tree, "values": [[s, d, sorted(u)] for s, d, u in vals], "loop_mode": mode}, sc
 
 
 # --------------------------------------------------------------------------- random scripts
@@ -232,6 +248,13 @@ def random_script(rng: random.Random, size: int, leak_p: float, max_depth: int =
                 local.append(fresh("f", deps_of([cref] + er + tr)))
             else:
                 k = rng.randrange(1, 3)
+                mc = {}
+                mode = rng.randrange(6)
+                if mode in (1, 2, 3, 4):
+                    out.append(["val", "consti", [], [3, 1, 0, 3][mode - 1]])
+                    mc["m"] = fresh("i", [])
+                if mode in (4, 5):
+                    mc["c"] = pick("b", open_bodies, local)
                 init = [pick("f", open_bodies, local) for _ in range(k)]
                 tok = ("L", body_tok[0])
                 body_tok[0] += 1
@@ -243,8 +266,8 @@ def random_script(rng: random.Random, size: int, leak_p: float, max_depth: int =
                 br = [cres] + [pick("f", inner, lb) for _ in range(k)]
                 if rng.random() < 0.3:
                     br.append(pick("f", inner, lb))  # a scan output
-                out.append(["loop", init, 2 + k, bb, br])
-                local.append(fresh("f", deps_of(init) | (deps_of(br) - {tok})))
+                out.append(["loop", init, 2 + k, bb, br, mc])
+                local.append(fresh("f", deps_of(init) | deps_of([r for r in mc.values()]) | (deps_of(br) - {tok})))
         return out
 
     loc: list = []
@@ -291,7 +314,8 @@ def ap_variants(ap: dict, rng: random.Random):
         q = copy.deepcopy(ap)
         g = q["nodes"][n]["s"][0]
         q["graphs"].append(copy.deepcopy(q["graphs"][g]))
-        q["nodes"].append({"k": "loop", "ty": "f", "a": False, "i": list(q["nodes"][n]["i"]), "s": [len(q["graphs"]) - 1]})
+        q["nodes"].append({"k": "loop", "ty": "f", "a": False, "i": list(q["nodes"][n]["i"]), "s": [len(q["graphs"]) - 1],
+                           "m": q["nodes"][n].get("m"), "c": q["nodes"][n].get("c")})
         new = len(q["nodes"]) - 1
         q["nodes"].append({"k": "sum", "ty": "f", "a": False, "i": [q["graphs"][0]["res"][0], new], "s": []})
         q["graphs"][0]["res"][0] = len(q["nodes"]) - 1
@@ -453,7 +477,8 @@ def cross_skeletons(max_bodies: int, rng: random.Random | None = None, sample: i
         vals = [(vscope, "x", uses)]
         for unused in (frozenset(), frozenset([ci])):
             try:
-                sc = skeleton_script(tree, vals, unused=unused, ctrl_uses={ci: {u1, u2}})
+                sc = skeleton_script(tree, vals, unused=unused, ctrl_uses={ci: {u1, u2}},
+                                     loop_mode=LOOP_MODES[(ci + u1 + u2) % len(LOOP_MODES)])
             except Invalid:
                 continue
             yield {"tree": tree, "ctrl": ci, "consumers": [u1, u2], "value_scope": vscope, "unused": sorted(unused)}, sc
